@@ -24,13 +24,13 @@ def fr(p):
 PSI_SCALE_EXPS = (0, -6, 3)        # FluxMap.tla: PsiScaleExps
 
 
-def equilibrium(neg, A, B, off=0, pexp=0, Z0=0, C=0):
+def equilibrium(neg, A, B, off=0, pexp=0, Z0=0, C=0, rnodes=None):
     import numpy as np
     from raysect.core import Point2D
     from cherab.tools.equilibrium import EFITEquilibrium
-    key = (neg, A, B, off, pexp, Z0, C)
+    key = (neg, A, B, off, pexp, Z0, C, tuple(rnodes or ()))
     if key not in _EQ:
-        r = np.arange(1.0, 8.0)
+        r = np.arange(1.0, 8.0) if not rnodes else np.array(sorted(rnodes), dtype=float)
         z = np.arange(-3.0, 4.0)
         sgn = -1.0 if neg else 1.0
         ps = 10.0 ** pexp
@@ -48,11 +48,13 @@ def lin(p, x):
 
 def replay(rec, ctx):
     from raysect.core import Vector3D
-    shape = dict(Z0=rec.get("Z0", 0), C=rec.get("C", 0))
+    shape = dict(Z0=rec.get("Z0", 0), C=rec.get("C", 0), rnodes=rec.get("rnodes") if rec.get("stretch") else None)
+    gx = rec.get("grad_exact", True)
+    rmax = max(rec["rnodes"]) if rec.get("rnodes") else 7
     eq = equilibrium(rec["neg"], rec["A"], rec["B"], rec.get("off", 0), **shape)
     r, z = float(rec["r"]), float(rec["z"])
     viol = []
-    tag = ("psi-negative" if rec["neg"] else "psi-positive") + ("[axis-offset]" if rec.get("off") else "") + ("[axis-above-midplane]" if shape["Z0"] else "") + ("[tilted]" if shape["C"] else "")
+    tag = ("psi-negative" if rec["neg"] else "psi-positive") + ("[axis-offset]" if rec.get("off") else "") + ("[axis-above-midplane]" if shape["Z0"] else "") + ("[tilted]" if shape["C"] else "") + ("[stretched-grid]" if shape["rnodes"] else "")
 
     def bad(what, detail):
         viol.append({"sig": f"{tag}:{what}", "detail": f"{detail} | A={rec['A']} B={rec['B']} node=({r},{z}) angle={rec['angle']}"})
@@ -70,7 +72,7 @@ def replay(rec, ctx):
             gs = eqs.psi_normalised(r, z)
             bs, b0 = eqs.b_field(r, z), eq.b_field(r, z)
             ps_, p0 = eqs.poloidal_vector(r, z), eq.poloidal_vector(r, z)
-            ok = core.close(gs, psin, rtol=1e-9, atol=1e-12) and bool(eqs.inside_lcfs(r, z)) == rec["inside"] \
+            ok = not gx or core.close(gs, psin, rtol=1e-9, atol=1e-12) and bool(eqs.inside_lcfs(r, z)) == rec["inside"] \
                 and core.close([bs.x, bs.z], [b0.x * 10.0 ** pe, b0.z * 10.0 ** pe], rtol=1e-9, atol=1e-12 * 10.0 ** pe * max(abs(b0.x), abs(b0.z), 1e-30)) \
                 and core.close([ps_.x, ps_.y, ps_.z], [p0.x, p0.y, p0.z], rtol=1e-9, atol=1e-12)
             if not ok:
@@ -79,7 +81,7 @@ def replay(rec, ctx):
     if "inside_limiter" in rec and bool(eq.inside_limiter(r, z)) != rec["inside_limiter"]:
         bad("inside_limiter-differs", f"{bool(eq.inside_limiter(r, z))} vs {rec['inside_limiter']}")
     # between the nodes: the normalised flux is never negative and the mapped profile is the profile at that flux
-    if r < 7 and z < 3 and rec["angle"] == [1, 0, 1]:
+    if r < rmax and z < 3 and rec["angle"] == [1, 0, 1]:
         import numpy as _np
         arrprof = eq.map2d(_np.array([[0.0, 0.5, 1.0, 40.0], [3.0, 4.0, 5.0, 83.0]]), value_outside_lcfs=-7.0)
         for qa in (0.25, 0.5, 0.75):
@@ -119,6 +121,12 @@ def replay(rec, ctx):
     on_edge = rec["psin"][0] == rec["psin"][1] and rec["angle"] != [1, 0, 1]
     if not core.close(got3, want, rtol=1e-9, atol=1e-12) and not (on_edge and got3 == -7.0):
         bad("map3d-differs", f"{got3!r} at toroidal angle (cos, sin) = ({c}/{h}, {s}/{h}) vs {want!r}")
+    if not gx:
+        # a node of the stretched axis whose neighbours are not equally far away: the gradient is not exact there
+        bt_ = eq.b_field(r, z).y
+        if not core.close(bt_, (F0 if rec["inside"] else BVAC * BVAC_R) / r, rtol=1e-9):
+            bad("toroidal-field-differs", f"{bt_!r}")
+        return viol
     # field and basis
     pr, pz = rec["grad"]
     b = eq.b_field(r, z)
@@ -263,7 +271,9 @@ def run(v):
     cases = [r for r in res.records if "psin" in r]
     if len(cases) < 2000 or not any(r["inside"] for r in cases) or not any(not r["inside"] and r["psin"][0] <= r["psin"][1] for r in cases) or not any(r["degenerate"] for r in cases):
         raise core.MachineryError("vacuity: flux-map cases missing")
-    cases.sort(key=lambda r: (r["off"], r["neg"], r["A"], r["B"], r["Z0"], r["C"]))
+    cases.sort(key=lambda r: (r["off"], r["neg"], r["A"], r["B"], r["Z0"], r["C"], r["stretch"]))
+    if not any(r["stretch"] and r["grad_exact"] and r["r"] in (6, 8) for r in cases):
+        raise core.MachineryError("vacuity: no stretched-grid node with an exact gradient")
     out = core.fan_out("mbt.c12", "replay", cases, None, chunk=147)
     for r, vs in zip(cases, out):
         for x in vs:
@@ -273,7 +283,7 @@ def run(v):
     for vs in out:
         for x in vs:
             v.violation(x["sig"], x["detail"], None)
-    v.add_cases(len(cases) + 2 * n, keys=[json.dumps([r["Z0"], r["C"], r["off"], r["neg"], r["A"], r["B"], r["r"], r["z"], r["angle"]]) for r in cases])
+    v.add_cases(len(cases) + 2 * n, keys=[json.dumps([r["stretch"], r["Z0"], r["C"], r["off"], r["neg"], r["A"], r["B"], r["r"], r["z"], r["angle"]]) for r in cases])
     v.sample(next(r for r in cases if r["inside"] and not r["degenerate"] and r["z"]))
     v.notes["random_points_per_bundled_equilibrium"] = n
     v.assumptions += ["synthetic quadratic psi on integer grids: cubic interpolation and second-order gradients are exact at the nodes where everything is compared",
